@@ -139,6 +139,17 @@ Theorem C03_crash_safe : forall c ops s0, run_ready c init ops -> rep s0 (s_dir 
 Proof. exact crash_safe. Qed.
 Print Assumptions C03_crash_safe.
 
+(* 7'. The same, sharp: a crash DURING operation [o], after the operations [ops1] were acknowledged,
+       recovers to the state with all of [ops1], and [o] applied entirely or not at all. *)
+Theorem C03_crash_during_operation : forall c ops1 o s0,
+  run_ready c init (ops1 ++ [o]) -> rep s0 (s_dir init) -> trace_wf (snd (run c init (ops1 ++ [o]))) ->
+  let s1 := fst (fst (run c init ops1)) in
+  exists f1, fs_run s0 (snd (run c init ops1)) = Some f1 /\
+    forall img, image_of f1 (snd (step c s1 o)) img ->
+      img_ok img (abs s1) \/ img_ok img (abs (fst (fst (step c s1 o)))).
+Proof. exact crash_during_op. Qed.
+Print Assumptions C03_crash_during_operation.
+
 Theorem C03_merge_pass_crash_safe : forall c s ord, Inv s -> merge_ready c s ord -> step_safe_at c s (OMerge ord).
 Proof. exact merge_safe. Qed.
 Print Assumptions C03_merge_pass_crash_safe.
